@@ -6,6 +6,11 @@
 #include <cstdarg>
 #include <algorithm>
 #include <set>
+#include <functional>
+#include <unistd.h>
+#include <fcntl.h>
+#include <csignal>
+#include <sys/wait.h>
 
 const char *all_checks[] = {"C01", "C02", "C03", "C04", "C05", "C06", "C07", "C08", "C09", "C10", "C11", "C12", "C13", "C14", "C15", "C17", "C19", nullptr};
 bool check_known(const std::string &prop) { for (int i = 0; all_checks[i]; ++i) if (prop == all_checks[i]) return true; return false; }
@@ -13,6 +18,7 @@ bool check_known(const std::string &prop) { for (int i = 0; all_checks[i]; ++i) 
 static std::string fmt(const char *f, ...) __attribute__((format(printf, 1, 2)));
 static std::string fmt(const char *f, ...) { char b[640]; va_list ap; va_start(ap, f); vsnprintf(b, sizeof b, f, ap); va_end(ap); return b; }
 
+void (*g_progress)(int, int, int64_t, int64_t, const char *) = nullptr;
 const uint64_t STEP_BUDGET = 400000000ULL;
 static const char *PATH_A = "/sim/a.jls";
 
@@ -41,6 +47,25 @@ static void setup_world(const Plan &P) {
     probes::install();
 }
 
+// which blocks have no level-0 data in the file (zero entries of the level-1 index, read by the independent decoder)
+static void mark_omitted(Model &m, const std::vector<uint8_t> &bytes) {
+    specdec::Decoded d; specdec::decode(bytes, d, false);
+    for (auto &kv : d.signals) {
+        auto it = m.signals.find(kv.first);
+        if (it == m.signals.end() || it->second.sigtype != 0 || !kv.second.spd) continue;
+        it->second.omitted.clear();
+        for (size_t ic : kv.second.levels[0][1].index_chunks) {
+            const specdec::Chunk &c = d.chunks[ic]; if (!c.payload_ok || c.plen < 16 + 8ull * c.entries) continue;
+            for (uint32_t k = 0; k < c.entries; ++k) {
+                uint64_t off; memcpy(&off, bytes.data() + c.payload_off + 16 + 8 * k, 8);
+                if (off) continue;
+                int64_t rel = c.ts + (int64_t) k * kv.second.spd - it->second.first_id;
+                it->second.omitted.push_back({rel, rel + kv.second.spd});
+            }
+        }
+    }
+}
+
 // write the program (sync or threaded), build the model from accepted ops, check acceptance against the conforming expectation
 static bool write_phase(const Plan &P, const std::string &prop, AResult &A, RunOutcome &out, bool log_writes, bool conforming) {
     A.wr = P.use_twr ? exec::write_twr(P, PATH_A, log_writes) : exec::write_sync(P, PATH_A, log_writes);
@@ -63,6 +88,7 @@ static bool write_phase(const Plan &P, const std::string &prop, AResult &A, RunO
     A.writer_ok = true;
     SFile *f = simfs::get(PATH_A);
     if (f) A.closed_bytes = f->bytes;
+    mark_omitted(A.m, A.closed_bytes);
     return true;
 }
 
@@ -223,9 +249,605 @@ static RunOutcome check_format(const std::string &prop, const Plan &P) {
     return out;
 }
 
+// ------------------------------------------------------------------ isolation: evaluate one crash image / altered image in a forked child,
+// so that a crash, sanitizer abort or wall-clock hang inside the library is one more outcome and the enumeration goes on.
+struct IsoOut { Violations v; RunOutcome o; bool died = false; std::string death_cls, death_detail; };
+std::string sanitizer_class_of(const std::string &errpath, const char *fallback, std::string *summary);
+static IsoOut isolate(const std::function<void(Violations &, RunOutcome &)> &fn) {
+    IsoOut r;
+    if (getenv("JLSSIM_NO_ISOLATE")) { fn(r.v, r.o); return r; }
+    int fd[2]; if (pipe(fd)) { perror("pipe"); exit(2); }
+    fflush(stdout); fflush(stderr);
+    char errpath[80]; snprintf(errpath, sizeof errpath, "/verif/build/tmp/iso_err_%d.txt", (int) getpid());
+    pid_t pid = fork();
+    if (pid == 0) {
+        close(fd[0]);
+        int ef = open(errpath, O_WRONLY | O_CREAT | O_TRUNC, 0644); if (ef >= 0) dup2(ef, 2);
+        alarm(120);
+        Violations lv; RunOutcome lo; lo.evaluations = 0;
+        fn(lv, lo);
+        std::string s; auto clean = [](std::string t) { for (auto &ch : t) if (ch == '\t' || ch == '\n') ch = ' '; return t; };
+        for (auto &v : lv) s += "V\t" + v.prop + "\t" + clean(v.cls) + "\t" + clean(v.detail) + "\t" + std::to_string(v.op) + "\n";
+        for (auto &kv : lo.ctr) s += "C\t" + kv.first + "\t" + std::to_string(kv.second) + "\n";
+        s += "N\t" + std::to_string(lo.nontrivial_units) + "\n";
+        for (uint64_t u : lo.unit_hashes) s += "U\t" + std::to_string(u) + "\n";
+        size_t off = 0; while (off < s.size()) { ssize_t w = write(fd[1], s.data() + off, s.size() - off); if (w <= 0) break; off += (size_t) w; }
+        _exit(0);
+    }
+    close(fd[1]);
+    std::string buf; char tmp[8192]; ssize_t n;
+    while ((n = read(fd[0], tmp, sizeof tmp)) > 0) buf.append(tmp, (size_t) n);
+    close(fd[0]);
+    int st = 0; waitpid(pid, &st, 0);
+    if (!(WIFEXITED(st) && WEXITSTATUS(st) == 0)) {
+        r.died = true; std::string summary;
+        if (WIFSIGNALED(st) && WTERMSIG(st) == SIGALRM) { r.death_cls = "wall_timeout"; r.death_detail = "did not finish within 120 s of wall clock"; }
+        else { r.death_cls = sanitizer_class_of(errpath, WIFSIGNALED(st) ? ("signal" + std::to_string(WTERMSIG(st))).c_str() : "report", &summary); r.death_detail = summary; }
+    }
+    unlink(errpath);
+    size_t pos = 0;
+    while (pos < buf.size()) {
+        size_t e = buf.find('\n', pos); if (e == std::string::npos) e = buf.size();
+        std::string line = buf.substr(pos, e - pos); pos = e + 1;
+        std::vector<std::string> f; size_t p2 = 0; while (true) { size_t t = line.find('\t', p2); if (t == std::string::npos) { f.push_back(line.substr(p2)); break; } f.push_back(line.substr(p2, t - p2)); p2 = t + 1; }
+        if (f[0] == "V" && f.size() >= 5) { Violation v{f[1], f[2], f[3], atoi(f[4].c_str())}; r.v.push_back(v); }
+        else if (f[0] == "C" && f.size() >= 3) r.o.ctr[f[1]] += strtoull(f[2].c_str(), nullptr, 10);
+        else if (f[0] == "N" && f.size() >= 2) r.o.nontrivial_units += strtoull(f[1].c_str(), nullptr, 10);
+        else if (f[0] == "U" && f.size() >= 2) r.o.unit_hashes.push_back(strtoull(f[1].c_str(), nullptr, 10));
+    }
+    return r;
+}
+
+// ------------------------------------------------------------------ engine B: process stop at every write boundary / torn write (C03, C19)
+static bool is_subsequence_annos(const std::vector<oracle::RAnno> &got, const MSignal &s, int64_t off) {
+    size_t j = 0;
+    for (auto &g : got) {
+        bool found = false;
+        while (j < s.annos.size()) { const MAnno &m = s.annos[j++]; if (g.t == m.t - off && g.at == m.at && g.st == m.st && g.grp == m.grp && g.ybits == m.ybits && g.data == m.data) { found = true; break; } }
+        if (!found) return false;
+    }
+    return true;
+}
+
+static void check_image_dump(const Plan &P, const Model &Msub, const Dump &d, Violations &v, std::map<int, int64_t> &lens) {
+    const std::string prop = "C03";
+    // pass 1: reported lengths
+    Model T = Msub;
+    for (size_t i = 0; i < P.reads.size(); ++i) {
+        const Op &o = P.reads[i]; const CallRec &c = d.calls[i];
+        if (o.kind != RD_LEN) continue;
+        auto it = T.signals.find(o.sig);
+        if (c.rc != 0) { if (it != T.signals.end()) T.signals.erase(it); continue; }
+        int64_t n; memcpy(&n, c.out.data(), 8);
+        if (it == T.signals.end() || it->second.sigtype != 0) { add_violation(v, prop, "exposes_unwritten_signal", fmt("length %lld reported for signal %d that was not defined at the crash point", (long long) n, o.sig), (int) i); continue; }
+        MSignal &s = it->second;
+        if (n < 0 || n > s.length()) { add_violation(v, prop, "length_exceeds_submitted", fmt("sig=%d %s reported=%lld submitted=%lld", o.sig, dt_name[s.dtype], (long long) n, (long long) s.length()), (int) i); n = std::max<int64_t>(0, std::min(n, s.length())); }
+        lens[o.sig] = n;
+        // trim
+        if (n == 0) { s.has_data = false; s.bits.clear(); s.next_id = s.first_id; s.gaps.clear(); }
+        else {
+            s.next_id = s.first_id + n; s.bits.resize((size_t) (((uint64_t) n * dt_bits[s.dtype] + 7) / 8));
+            std::vector<std::pair<int64_t, int64_t>> g2; for (auto &g : s.gaps) if (g.first < n) g2.push_back({g.first, std::min(g.second, n)}); s.gaps = g2;
+        }
+    }
+    // signals for which no RD_LEN was issued cannot be judged: drop them
+    // pass 2: calls
+    for (size_t i = 0; i < P.reads.size(); ++i) {
+        const Op &o = P.reads[i]; const CallRec &c = d.calls[i];
+        if (c.skipped) continue;
+        switch (o.kind) {
+            case RD_FSR: case RD_FSR_F32: case RD_STATS: {
+                auto it = T.signals.find(o.sig);
+                if (it == T.signals.end()) { if (c.rc == 0 && o.n > 0) add_violation(v, prop, "exposes_unwritten_signal", fmt("read of signal %d succeeded although the signal is not readable/defined", o.sig), (int) i); break; }
+                size_t before = v.size();
+                oracle::check_call(prop, T, o, c, (int) i, v);
+                for (size_t k = before; k < v.size(); ++k) v[k].cls = "prefix_" + v[k].cls;
+                break;
+            }
+            case RD_ANNO: {
+                if (c.rc != 0) break;      // an error is acceptable
+                std::vector<oracle::RAnno> got;
+                if (!oracle::parse_annos(c.out, got)) { add_violation(v, prop, "anno_parse", "harness parse", (int) i); break; }
+                auto ms = Msub.signals.find(o.sig);
+                if (ms == Msub.signals.end()) { if (!got.empty()) add_violation(v, prop, "exposes_unwritten_annotation", fmt("sig=%d delivered %zu annotations, none submitted", o.sig, got.size()), (int) i); break; }
+                auto ts = T.signals.find(o.sig);
+                int64_t off = (ts != T.signals.end() && ts->second.sigtype == 0 && ts->second.has_data) ? ts->second.first_id : 0;
+                if (!is_subsequence_annos(got, ms->second, off)) {
+                    // the reader may not know the first sample id (no data chunk on disk): then timestamps are not rebased
+                    if (!(off != 0 && is_subsequence_annos(got, ms->second, 0)) && !(off == 0 && ms->second.sigtype == 0 && ms->second.has_data && is_subsequence_annos(got, ms->second, ms->second.first_id)))
+                        add_violation(v, prop, "annotation_altered_or_reordered", fmt("sig=%d: the %zu delivered annotations are not an in-order subsequence of the %zu submitted", o.sig, got.size(), ms->second.annos.size()), (int) i);
+                }
+                break;
+            }
+            case RD_UTC: {
+                if (c.rc != 0) break;
+                auto ms = Msub.signals.find(o.sig);
+                size_t ngot = c.out.size() / 16; const int64_t *g = (const int64_t *) c.out.data();
+                if (ms == Msub.signals.end()) { if (ngot) add_violation(v, prop, "exposes_unwritten_utc", fmt("sig=%d delivered %zu utc entries", o.sig, ngot), (int) i); break; }
+                auto ts = T.signals.find(o.sig);
+                for (int attempt = 0; attempt < 2; ++attempt) {
+                    int64_t off = attempt == 0 ? ((ts != T.signals.end() && ts->second.has_data) ? ts->second.first_id : 0) : (ms->second.has_data ? ms->second.first_id : 0);
+                    size_t j = 0; bool ok = true;
+                    for (size_t k = 0; k < ngot && ok; ++k) { bool f = false; while (j < ms->second.utcs.size()) { const MUtc &u = ms->second.utcs[j++]; if (u.id - off == g[2 * k] && u.utc == g[2 * k + 1]) { f = true; break; } } ok = f; }
+                    if (ok) break;
+                    if (attempt == 1) add_violation(v, prop, "utc_altered_or_reordered", fmt("sig=%d: the %zu delivered utc entries are not an in-order subsequence of the %zu submitted", o.sig, ngot, ms->second.utcs.size()), (int) i);
+                }
+                break;
+            }
+            case RD_USER: {
+                if (c.rc != 0) break;
+                std::vector<oracle::RUser> got;
+                if (!oracle::parse_users(c.out, got)) break;
+                size_t j = 0; bool ok = true;
+                for (auto &g : got) { bool f = false; while (j < Msub.users.size()) { const MUser &u = Msub.users[j++]; if ((int) g.meta == u.meta && (int) g.st == u.st && g.data == u.data) { f = true; break; } } if (!f) { ok = false; break; } }
+                if (!ok) add_violation(v, prop, "user_data_altered_or_reordered", fmt("the %zu delivered user data items are not an in-order subsequence of the %zu submitted", got.size(), Msub.users.size()), (int) i);
+                break;
+            }
+            default: break;   // definitions: checked through RD_LEN / reads (a signal that reads back was defined)
+        }
+    }
+}
+
+// conservative lower bound of the samples that must survive a stop on a write boundary: all complete DATA chunks except the last, leading run only
+static void durable_bounds(const std::vector<uint8_t> &img, const Model &Msub, std::map<int, int64_t> &bound) {
+    specdec::Decoded d; specdec::decode(img, d, false);
+    for (auto &kv : d.signals) {
+        auto ms = Msub.signals.find(kv.first);
+        if (ms == Msub.signals.end() || ms->second.sigtype != 0 || !ms->second.has_data) continue;
+        const std::vector<size_t> &dc = kv.second.data_chunks[0];
+        int64_t expect = ms->second.first_id, L = 0;
+        for (size_t i = 0; i + 1 < dc.size(); ++i) {
+            const specdec::Chunk &c = d.chunks[dc[i]];
+            if (!c.payload_ok || c.ts != expect) break;
+            expect += c.entries; L = expect - ms->second.first_id;
+        }
+        bound[kv.first] = L;
+    }
+}
+
+static RunOutcome check_crash(const std::string &prop, const Plan &P, int tier) {
+    RunOutcome out; AResult A;
+    setup_world(P);
+    count_ops(P, out);
+    out.evaluations = 0;
+    Violations all;
+    if (!write_phase(P, "C03", A, out, true, true)) { all = out.viol; out.viol.clear(); }
+    else {
+        SFile *f = simfs::get(PATH_A);
+        // keep a private copy of the log: later sessions create other files
+        std::vector<WOp> log = f->log; std::vector<uint8_t> logbytes = f->logbytes;
+        SFile logfile; logfile.log = log; logfile.logbytes = logbytes;
+        std::vector<size_t> mut;    // indices of mutating ops
+        for (size_t i = 0; i < log.size(); ++i) if (log[i].kind == W_WRITE || log[i].kind == W_TRUNC) mut.push_back(i);
+        Rng r = rng_derive(P.seed, "crash");
+        std::set<uint64_t> seen_images;
+        uint64_t closed_hash = fnv1a(A.closed_bytes.data(), A.closed_bytes.size());
+        // which ops had started at each mutating op: op index recorded in the log (-1: inside jls_wr_open, treated as op 0 not started)
+        std::vector<std::pair<size_t, size_t>> points;   // (k complete mutating ops, b bytes of the next)
+        size_t max_points = tier ? 6000 : 400;
+        for (size_t k = 0; k <= mut.size(); ++k) {
+            points.push_back({k, 0});
+            if (k < mut.size() && log[mut[k]].kind == W_WRITE && log[mut[k]].len > 1) {
+                uint64_t len = log[mut[k]].len;
+                if (tier && len <= 160) { for (uint64_t b = 1; b < len; ++b) points.push_back({k, (size_t) b}); }
+                else { int nt = tier ? 8 : 2; for (int t = 0; t < nt; ++t) points.push_back({k, (size_t) r.range(1, (int64_t) len - 1)}); }
+            }
+        }
+        // focus (replay / minimisation): evaluate a single crash point
+        {
+            bool focused = false; std::pair<size_t, size_t> fp{0, 0};
+            for (size_t i = 0; i < P.ops.size(); ++i) if (P.ops[i].fw >= 0) {
+                int cnt = 0; for (size_t k = 0; k < mut.size(); ++k) if (log[mut[k]].op == (int) i) { if (cnt == P.ops[i].fw) { fp = {k, (size_t) P.ops[i].fb}; focused = true; break; } ++cnt; }
+                if (!focused) { fp = {mut.size(), 0}; focused = true; }    // op issues fewer writes now: fall back to the closed file
+            }
+            if (P.focus_k >= 0) { fp = {(size_t) std::min<int64_t>(P.focus_k, (int64_t) mut.size()), (size_t) P.focus_b}; focused = true; }
+            if (P.focus_k == -2) { fp = {mut.size(), 0}; focused = true; }
+            if (focused) { points.clear(); points.push_back(fp); }
+        }
+        if (points.size() > max_points) {   // sample, biased to the tail (close sequence) and keeping every boundary when possible
+            std::vector<std::pair<size_t, size_t>> sel;
+            for (auto &pt : points) { bool boundary = pt.second == 0; double keep = (double) max_points / points.size(); if (boundary) keep *= 3; if (pt.first + 60 >= mut.size()) keep *= 4; if (r.chance(std::min(1.0, keep))) sel.push_back(pt); }
+            points.swap(sel);
+        }
+        std::vector<uint8_t> img;
+        for (auto &pt : points) {
+            size_t k = pt.first, b = pt.second;
+            simfs::image(&logfile, k, b, img);
+            uint64_t ih = fnv1a(img.data(), img.size());
+            if (!seen_images.insert(ih).second) continue;
+            ++out.evaluations;
+            size_t viol_before = all.size();
+            if (g_progress) { int fo = k < mut.size() ? log[mut[k]].op : -4, fwi = 0; if (k < mut.size()) for (size_t z = 0; z < k; ++z) if (log[mut[z]].op == log[mut[k]].op) ++fwi; g_progress(fo, fwi, (int64_t) b, (int64_t) k, ""); }
+            IsoOut iso = isolate([&](Violations &lv, RunOutcome &lo) {
+            // submitted model: ops that had started when write k was (or would have been) issued
+            int cur_op = k < mut.size() ? log[mut[k]].op : (int) P.ops.size();
+            if (k == mut.size()) cur_op = (int) P.ops.size();
+            Model Msub; bool defs_on_disk = true;
+            for (size_t i = 0; i < P.ops.size(); ++i) {
+                if ((int) i > cur_op) break;
+                if (!A.wr.rec[i].done || A.wr.rec[i].rc != 0) continue;
+                Msub.apply(P.ops[i]);
+            }
+            for (auto &kv : Msub.signals) { auto fm = A.m.signals.find(kv.first); if (fm != A.m.signals.end()) kv.second.omitted = fm->second.omitted; }
+            if (cur_op < 0) defs_on_disk = false;
+            else if (cur_op < (int) P.ops.size() && (P.ops[cur_op].kind == OP_SRC || P.ops[cur_op].kind == OP_SIG)) defs_on_disk = false;
+            const char *PATH_C = "/sim/crash.jls";
+            simfs::put(PATH_C, img);
+            Dump d1; RunStatus st = exec::read_dump(P, PATH_C, d1, false);
+            std::string where = fmt("stop after %zu of %zu backend writes%s", k, mut.size(), b ? fmt(" + %zu bytes of the next (%llu)", b, (unsigned long long) log[mut[k]].len).c_str() : "");
+            if (st != RUN_OK) {
+                add_violation(lv, "C03", std::string("open_") + sim::status_name(st), where + ": opening/reading the image did not terminate (" + sim::status_name(st) + ")");
+                lv.back().f_k = (int64_t) k; lv.back().f_b = (int64_t) b; lv.back().f_op = k < mut.size() ? log[mut[k]].op : -4; lv.back().f_w = 0;
+                if (k < mut.size()) for (size_t z = 0; z < k; ++z) if (log[mut[z]].op == log[mut[k]].op) ++lv.back().f_w;
+                return;
+            }
+            if (getenv("JLSSIM_VERBOSE")) {
+                fprintf(stderr, "IMAGE %s size=%zu open_rc=%d repaired=%d\n", where.c_str(), img.size(), d1.open_rc, (int) d1.repaired);
+                { FILE *o1 = fopen("/tmp/jlssim_crash.jls", "wb"); if (o1) { fwrite(img.data(), 1, img.size(), o1); fclose(o1); } SFile *cf0 = simfs::get(PATH_C); FILE *o2 = fopen("/tmp/jlssim_repaired.jls", "wb"); if (o2 && cf0) { fwrite(cf0->bytes.data(), 1, cf0->bytes.size(), o2); } if (o2) fclose(o2); }
+                for (size_t q = 0; q < d1.calls.size(); ++q) { fprintf(stderr, "  call %zu %s -> rc=%d out=%zu bytes", q, P.reads[q].to_text().c_str(), d1.calls[q].rc, d1.calls[q].out.size()); if (P.reads[q].kind == RD_LEN && d1.calls[q].rc == 0) { int64_t n; memcpy(&n, d1.calls[q].out.data(), 8); fprintf(stderr, " len=%lld", (long long) n); } fprintf(stderr, "\n"); }
+            }
+            bool nontrivial_img = ih != closed_hash && img.size() > 32 && (d1.repaired || d1.open_rc != 0);
+            if (nontrivial_img) { ++lo.nontrivial_units; lo.unit_hashes.push_back(ih); }
+            lo.ctr[d1.open_rc == 0 ? (d1.repaired ? "images_repaired" : "images_opened_clean") : "images_open_error"]++;
+            if (b) lo.ctr["images_torn"]++; else lo.ctr["images_boundary"]++;
+            if (d1.open_rc == 0) {
+                std::map<int, int64_t> lens;
+                size_t nb = lv.size();
+                check_image_dump(P, Msub, d1, lv, lens);
+                for (size_t q = nb; q < lv.size(); ++q) lv[q].detail = where + ": " + lv[q].detail;
+                if (b == 0 && defs_on_disk) {
+                    std::map<int, int64_t> bound; durable_bounds(img, Msub, bound);
+                    for (auto &kv : bound) {
+                        auto it = lens.find(kv.first);
+                        if (it == lens.end()) { add_violation(lv, "C03", "boundary_signal_unreadable", where + fmt(": signal %d has %lld durable samples but its length cannot be read", kv.first, (long long) kv.second)); continue; }
+                        if (it->second < kv.second) add_violation(lv, "C03", "boundary_loses_durable_samples", where + fmt(": signal %d reopened with %lld samples, but %lld samples are in complete data chunks before the in-flight block", kv.first, (long long) it->second, (long long) kv.second));
+                    }
+                }
+                // ---- C19: the file after the (possibly repairing) open is closed and stable
+                SFile *cf = simfs::get(PATH_C);
+                std::vector<uint8_t> after1 = cf->bytes;
+                if (d1.repaired) {
+                    specdec::Decoded dd; specdec::decode(after1, dd, true);
+                    for (auto &e : dd.errors) { size_t bar = e.find('|'); add_violation(lv, "C19", "repaired_format_" + e.substr(0, bar), where + ": repaired file: " + e.substr(bar + 1)); }
+                    lo.ctr["repaired_files_decoded"]++;
+                }
+                for (int session = 2; session <= 3; ++session) {
+                    uint64_t mut_before = cf->n_mut, openw_before = cf->n_open_w;
+                    Dump d2; RunStatus st2 = exec::read_dump(P, PATH_C, d2, false);
+                    cf = simfs::get(PATH_C);
+                    if (st2 != RUN_OK) { add_violation(lv, "C19", std::string("reopen_") + sim::status_name(st2), where + fmt(": open #%d did not terminate", session)); break; }
+                    if (cf->n_mut != mut_before || cf->n_open_w != openw_before) add_violation(lv, "C19", "reopen_modifies_file", where + fmt(": open #%d issued %llu mutating calls / %llu opens for writing", session, (unsigned long long) (cf->n_mut - mut_before), (unsigned long long) (cf->n_open_w - openw_before)));
+                    if (d2.open_rc != d1.open_rc) add_violation(lv, "C19", "reopen_result_differs", where + fmt(": open #%d returned %d, the repairing open returned %d", session, d2.open_rc, d1.open_rc));
+                    else for (size_t q = 0; q < d1.calls.size(); ++q) if (d1.calls[q].rc != d2.calls[q].rc || d1.calls[q].out != d2.calls[q].out) {
+                        add_violation(lv, "C19", "reopen_dump_differs", where + fmt(": open #%d: call %zu (%s) differs from the repairing session (rc %d vs %d, %zu vs %zu bytes)", session, q, P.reads[q].to_text().c_str(), d2.calls[q].rc, d1.calls[q].rc, d2.calls[q].out.size(), d1.calls[q].out.size()), (int) q); break; }
+                    lo.ctr["c19_sessions"]++;
+                }
+            } else if (b == 0 && defs_on_disk) {
+                add_violation(lv, "C03", "boundary_open_failed", where + fmt(": jls_rd_open returned %d although the stop is between two writes and every definition is on disk (writer was in op %d %s)", d1.open_rc, cur_op, cur_op >= 0 && cur_op < (int) P.ops.size() ? op_names[P.ops[cur_op].kind] : "-"));
+            }
+            });
+            for (auto &v : iso.v) if (all.size() < 64) all.push_back(v);
+            for (auto &kv : iso.o.ctr) out.ctr[kv.first] += kv.second;
+            out.nontrivial_units += iso.o.nontrivial_units; for (uint64_t u : iso.o.unit_hashes) out.unit_hashes.push_back(u);
+            if (iso.died) {
+                std::string where0 = fmt("stop after %zu of %zu backend writes%s", k, mut.size(), b ? fmt(" + %zu bytes of the next", b).c_str() : "");
+                if (all.size() < 64) all.push_back(Violation{"C03", iso.death_cls, where0 + ": opening/reading the image killed the process: " + iso.death_detail, -1});
+                out.ctr["images_killed_process"]++;
+            }
+            simfs::remove("/sim/crash.jls");
+            for (size_t q = viol_before; q < all.size(); ++q) {
+                all[q].f_k = (int64_t) k; all[q].f_b = (int64_t) b; all[q].f_op = k < mut.size() ? log[mut[k]].op : -4; all[q].f_w = 0;
+                if (k < mut.size()) for (size_t z = 0; z < k; ++z) if (log[mut[z]].op == log[mut[k]].op) ++all[q].f_w;
+            }
+        }
+        out.sample = fmt("%zu ops, %zu backend writes, %llu images opened", P.ops.size(), mut.size(), (unsigned long long) out.evaluations);
+        out.ctr["crash_programs"]++; out.ctr["backend_writes"] += mut.size();
+        out.nontrivial = out.nontrivial_units > 0;
+    }
+    for (auto &v : all) if (v.prop == prop && out.viol.size() < 8) out.viol.push_back(v);
+    if (out.evaluations == 0) out.evaluations = 1;
+    finish_outcome(out);
+    sim::cleanup();
+    return out;
+}
+
+// ------------------------------------------------------------------ engine C: stored-bit faults on a closed file (C04)
+struct Alter { int kind; uint64_t off; uint64_t arg; };   // kind 0: xor byte at off with mask arg; 1: zero arg bytes at off; 2: overwrite arg bytes at off with 0xA5
+static std::string alter_text(const std::vector<Alter> &a) {
+    std::string s; char b[64];
+    for (size_t i = 0; i < a.size(); ++i) { snprintf(b, sizeof b, "%s%c:%llu:%llu", i ? "," : "", a[i].kind == 0 ? 'x' : a[i].kind == 1 ? 'z' : 'o', (unsigned long long) a[i].off, (unsigned long long) a[i].arg); s += b; }
+    return s;
+}
+static bool alter_parse(const std::string &t, std::vector<Alter> &a) {
+    size_t pos = 0;
+    while (pos < t.size()) {
+        size_t e = t.find(',', pos); if (e == std::string::npos) e = t.size();
+        std::string tok = t.substr(pos, e - pos); pos = e + 1;
+        char k; unsigned long long o, g;
+        if (sscanf(tok.c_str(), "%c:%llu:%llu", &k, &o, &g) != 3) return false;
+        a.push_back(Alter{k == 'x' ? 0 : k == 'z' ? 1 : 2, o, g});
+    }
+    return true;
+}
+static void alter_apply(std::vector<uint8_t> &img, const std::vector<Alter> &a) {
+    for (auto &x : a) {
+        if (x.kind == 0) { if (x.off < img.size()) img[x.off] ^= (uint8_t) x.arg; }
+        else for (uint64_t i = 0; i < x.arg && x.off + i < img.size(); ++i) img[x.off + i] = x.kind == 1 ? 0 : 0xA5;
+    }
+}
+
+static RunOutcome check_corrupt(const std::string &prop, const Plan &P, int tier) {
+    RunOutcome out; AResult A;
+    setup_world(P);
+    count_ops(P, out);
+    out.evaluations = 0;
+    if (write_phase(P, prop, A, out, false, true) && out.viol.empty()) {
+        const std::vector<uint8_t> F = A.closed_bytes;
+        Dump D0; RunStatus st0 = exec::read_dump(P, PATH_A, D0, false);
+        Violations pre;
+        if (st0 == RUN_OK) oracle::check_dump(prop, A.m, P, D0, pre, false);
+        specdec::Decoded dec; specdec::decode(F, dec, true);
+        if (st0 != RUN_OK || !pre.empty() || !dec.errors.empty() || D0.open_rc != 0) {
+            out.ctr["pristine_dump_not_right_skipped"]++;     // other properties' business; nothing to corrupt
+            for (auto &pv : pre) out.ctr["pristine_skip_" + pv.cls]++;
+            for (auto &e : dec.errors) out.ctr["pristine_skip_format_" + e.substr(0, e.find('|'))]++;
+            if (!pre.empty()) out.sample = "skipped: " + pre[0].cls + ": " + pre[0].detail;
+        } else {
+            std::vector<specdec::Region> regs; specdec::regions(dec, regs);
+            uint64_t fhash = fnv1a(F.data(), F.size());
+            Rng r = rng_derive(P.seed, "corrupt");
+            std::vector<std::vector<Alter>> alts;
+            if (!P.focus.empty()) { for (auto &t : P.focus) { std::vector<Alter> a; if (alter_parse(t, a)) alts.push_back(a); } }
+            else {
+                size_t budget = tier ? 2500 : 260;
+                if (tier && F.size() <= 8192) { for (uint64_t o = 0; o < F.size(); ++o) for (int b = 0; b < 8; ++b) alts.push_back({Alter{0, o, 1ull << b}}); out.ctr["exhaustive_single_bit_files"]++; }
+                while (alts.size() < budget + (tier && F.size() <= 8192 ? F.size() * 8 : 0)) {
+                    std::vector<Alter> a; int c = (int) r.below(12);
+                    auto pick_region = [&](int kind_pref) { for (int t = 0; t < 8; ++t) { const specdec::Region &g = regs[r.below(regs.size())]; if (kind_pref < 0 || g.kind == kind_pref) return g; } return regs[r.below(regs.size())]; };
+                    auto flips_in = [&](const specdec::Region &g, int n) { for (int i = 0; i < n; ++i) a.push_back(Alter{0, (uint64_t) r.range((int64_t) g.start, (int64_t) g.end - 1), 1ull << r.below(8)}); };
+                    if (c < 3) flips_in(pick_region(c == 0 ? 1 : c == 1 ? 2 : -1), 1);
+                    else if (c == 3) flips_in(pick_region(-1), 2);
+                    else if (c == 4) flips_in(pick_region(-1), 3);
+                    else if (c == 5) {   // burst of <= 32 bits
+                        const specdec::Region &g = pick_region(-1); uint64_t bits = (g.end - g.start) * 8; uint64_t len = (uint64_t) r.range(2, 32); if (len > bits) len = bits;
+                        uint64_t start = g.start * 8 + r.below(bits - len + 1);
+                        for (uint64_t i = 0; i < len; ++i) if (i == 0 || i == len - 1 || r.chance(0.5)) a.push_back(Alter{0, (start + i) / 8, 1ull << ((start + i) & 7)});
+                    }
+                    else if (c == 6) { int n = (int) r.range(2, 4); for (int i = 0; i < n; ++i) flips_in(pick_region(-1), (int) r.range(1, 3)); }     // several regions at once
+                    else if (c == 7) { flips_in(regs[0], (int) r.range(1, 3)); }                                                                        // file header
+                    else if (c == 8) { const specdec::Region &g = regs[regs.size() - 1]; flips_in(g, (int) r.range(1, 3)); if (r.chance(0.5)) flips_in(pick_region(-1), 1); }   // END chunk (+ another)
+                    else if (c == 9) { const specdec::Region &g = pick_region(-1); uint64_t len = (uint64_t) r.range(1, (int64_t) std::min<uint64_t>(g.end - g.start, 600)); a.push_back(Alter{1, (uint64_t) r.range((int64_t) g.start, (int64_t) (g.end - len)), len}); }
+                    else if (c == 10) { uint64_t len = (uint64_t) r.range(1, 300); a.push_back(Alter{2, r.below(F.size()), len}); }
+                    else {   // pad bytes (unprotected)
+                        std::vector<uint64_t> pads; for (auto &ch : dec.chunks) if (ch.plen) for (uint64_t p2 = ch.payload_off + ch.plen; p2 + 4 < ch.end; ++p2) pads.push_back(p2);
+                        if (pads.empty()) continue;
+                        a.push_back(Alter{0, pads[r.below(pads.size())], 1ull << r.below(8)});
+                    }
+                    alts.push_back(a);
+                }
+            }
+            const char *PATH_X = "/sim/alt.jls";
+            for (auto &a : alts) {
+                std::vector<uint8_t> img = F; alter_apply(img, a);
+                if (img == F) continue;
+                // classification per protected region
+                bool only_pad = true, certain = true, detectable = false;
+                for (auto &g : regs) {
+                    uint64_t nbits = 0, first = UINT64_MAX, last = 0;
+                    for (uint64_t o = g.start; o < g.end; ++o) { uint8_t x = img[o] ^ F[o]; if (!x) continue; for (int b = 0; b < 8; ++b) if (x & (1 << b)) { ++nbits; uint64_t bit = o * 8 + b; first = std::min(first, bit); last = std::max(last, bit); } }
+                    if (!nbits) continue;
+                    // pad bytes are inside kind-2 regions but outside crc coverage
+                    bool region_is_pad_only = false;
+                    if (g.kind == 2) { const specdec::Chunk &ch = dec.chunks[g.chunk]; bool in_cov = false; for (uint64_t o = g.start; o < g.end; ++o) if (img[o] != F[o] && (o < ch.payload_off + ch.plen || o >= ch.end - 4)) in_cov = true; region_is_pad_only = !in_cov; }
+                    if (region_is_pad_only) continue;
+                    only_pad = false;
+                    if (!(nbits <= 3 || last - first < 32)) certain = false;
+                    // does the altered region still carry a matching crc? (then the alteration is undetectable by design)
+                    bool match;
+                    if (g.kind == 0) match = specdec::crc32c(img.data(), 28) == *(const uint32_t *) (img.data() + 28);
+                    else if (g.kind == 1) match = specdec::crc32c(img.data() + g.start, 28) == *(const uint32_t *) (img.data() + g.start + 28);
+                    else { const specdec::Chunk &ch = dec.chunks[g.chunk]; match = specdec::crc32c(img.data() + ch.payload_off, ch.plen) == *(const uint32_t *) (img.data() + ch.end - 4); }
+                    if (!match) detectable = true;
+                    else if (nbits <= 3 || last - first < 32) { add_violation(out.viol, prop, "harness_crc_model", "an alteration of <= 3 bits / <= 32-bit burst left a matching CRC: decoder CRC model is wrong"); }
+                }
+                // unprotected bytes outside all regions do not exist (every byte is header or payload area)
+                if (!only_pad && !certain && !detectable) { out.ctr["alterations_undetectable_by_design"]++; continue; }
+                ++out.evaluations;
+                out.ctr[only_pad ? "alterations_pad_only" : certain ? "alterations_certain_class" : "alterations_uncertain_but_crc_differs"]++;
+                std::string atext0 = alter_text(a);
+                IsoOut iso = isolate([&](Violations &lv, RunOutcome &lo) {
+                simfs::put(PATH_X, img);
+                std::string atext = alter_text(a);
+                if (g_progress) g_progress(-3, -1, 0, -1, atext.c_str());
+                Dump d; RunStatus st = exec::read_dump(P, PATH_X, d, false);
+                size_t vb = lv.size();
+                if (st != RUN_OK) { add_violation(lv, prop, std::string("corrupt_") + sim::status_name(st), fmt("alteration %s: reading did not terminate (%s)", atext.c_str(), sim::status_name(st))); lv.back().f_alter = atext; return; }
+                lo.unit_hashes.push_back(fnv_u64(fnv1a(atext.data(), atext.size()), fhash)); ++lo.nontrivial_units;
+                lo.ctr[d.open_rc ? "altered_open_error" : d.repaired ? "altered_open_repaired" : "altered_open_ok"]++;
+                if (d.open_rc == 0) {
+                    if (d.repaired) { std::map<int, int64_t> lens; check_image_dump(P, A.m, d, lv, lens); for (size_t q = vb; q < lv.size(); ++q) { lv[q].prop = prop; lv[q].cls = "repaired_" + lv[q].cls; } }
+                    else {
+                        uint64_t n_err = 0, n_same = 0;
+                        for (size_t q = 0; q < d.calls.size(); ++q) {
+                            const CallRec &c = d.calls[q], &c0 = D0.calls[q];
+                            if (c.skipped) continue;
+                            if (c.rc != 0) { ++n_err; continue; }
+                            if (c0.rc == 0 && c.out == c0.out) { ++n_same; continue; }
+                            // callbacks deliver items before an error is detected: a shorter in-order delivery with rc != 0 was handled above; rc == 0 must be complete and equal
+                            add_violation(lv, prop, only_pad ? "pad_flip_changes_output" : "altered_content_returned",
+                                          fmt("alteration %s: call %zu (%s) returned rc 0 with output that differs from the pristine file (%zu vs %zu bytes; pristine rc %d)", atext.c_str(), q, P.reads[q].to_text().c_str(), c.out.size(), c0.out.size(), c0.rc), (int) q);
+                            break;
+                        }
+                        lo.ctr["altered_calls_error"] += n_err; lo.ctr["altered_calls_same"] += n_same;
+                        if (only_pad && n_err) add_violation(lv, prop, "pad_flip_changes_output", fmt("alteration %s (pad bytes only): %llu calls failed", atext.c_str(), (unsigned long long) n_err));
+                    }
+                } else if (only_pad) add_violation(lv, prop, "pad_flip_changes_output", fmt("alteration %s (pad bytes only): open failed with %d", atext.c_str(), d.open_rc));
+                for (size_t q = vb; q < lv.size(); ++q) { lv[q].f_alter = atext; if (lv[q].detail.find("alteration") != 0) lv[q].detail = "alteration " + atext + ": " + lv[q].detail; }
+                simfs::remove(PATH_X);
+                });
+                for (auto &v : iso.v) { if (out.viol.size() < 8) { out.viol.push_back(v); out.viol.back().f_alter = atext0; } }
+                for (auto &kv : iso.o.ctr) out.ctr[kv.first] += kv.second;
+                out.nontrivial_units += iso.o.nontrivial_units; for (uint64_t u : iso.o.unit_hashes) out.unit_hashes.push_back(u);
+                if (iso.died && out.viol.size() < 8) { out.viol.push_back(Violation{prop, iso.death_cls, "alteration " + atext0 + ": reading the altered file killed the process: " + iso.death_detail, -1}); out.viol.back().f_alter = atext0; out.ctr["altered_killed_process"]++; }
+                if (out.viol.size() >= 8) break;
+            }
+            out.sample = fmt("file of %zu bytes, %zu chunks, %zu regions, %llu altered images read", F.size(), dec.chunks.size(), regs.size(), (unsigned long long) out.evaluations);
+            out.nontrivial = out.nontrivial_units > 0;
+        }
+    }
+    if (out.evaluations == 0) out.evaluations = 1;
+    finish_outcome(out);
+    sim::cleanup();
+    return out;
+}
+
+// ------------------------------------------------------------------ engine D: threaded writer under seeded schedules (C06, C07, C08)
+static bool is_msg_kind(int k) { return k == OP_FSR || k == OP_ANNO || k == OP_UTC || k == OP_USER || k == OP_OMIT; }
+
+static RunOutcome check_twr(const std::string &prop, const Plan &P) {
+    RunOutcome out; Violations all;
+    setup_world(P);
+    count_ops(P, out);
+    if (P.use_twr == 2) {     // C08 direct driver
+        std::vector<std::string> errs; uint64_t n_ok = 0, n_fail = 0, n_pop = 0;
+        RunStatus st = exec::mrb_driver(P, errs, &n_ok, &n_fail, &n_pop);
+        if (st != RUN_OK) add_violation(all, "C08", std::string("driver_") + sim::status_name(st), "queue driver did not finish");
+        for (auto &e : errs) { size_t bar = e.find('|'); add_violation(all, "C08", e.substr(0, bar), "direct driver: " + e.substr(bar + 1)); }
+        for (auto &e : mon::queue_violations) { size_t bar = e.find('|'); add_violation(all, "C08", e.substr(0, bar), "direct driver: " + e.substr(bar + 1)); }
+        out.ctr["driver_runs"]++; out.ctr["driver_alloc_ok"] += n_ok; out.ctr["driver_alloc_fail"] += n_fail; out.ctr["driver_pops"] += n_pop;
+        out.ctr["queue_wraps"] += mon::n_wrap; out.ctr["queue_resets"] += mon::n_reset; out.ctr["queue_states_total"] = mon::queue_states.size();
+        out.nontrivial = mon::n_wrap + mon::n_reset > 0 && n_fail > 0;
+        out.sample = fmt("direct driver: capacity %u, %llu allocs ok, %llu failed, %llu pops, %llu wraps", P.mrb_size, (unsigned long long) n_ok, (unsigned long long) n_fail, (unsigned long long) n_pop, (unsigned long long) mon::n_wrap);
+        for (auto &v : all) if (v.prop == prop && out.viol.size() < 8) out.viol.push_back(v);
+        finish_outcome(out); sim::cleanup(); return out;
+    }
+    WriterResult wr = exec::write_twr(P, PATH_A, true);
+    bool clock_jumped = sim::fault_counts[F_CLOCK_JUMP] > 0;
+    out.ctr["queue_wraps"] += mon::n_wrap; out.ctr["queue_resets"] += mon::n_reset; out.ctr["queue_alloc_fail"] += mon::n_alloc_fail; out.ctr["queue_alloc_ok"] += mon::n_alloc_ok;
+    out.ctr["queue_max_count"] = std::max<uint64_t>(out.ctr["queue_max_count"], mon::max_count); out.ctr["queue_states_total"] = mon::queue_states.size();
+    for (auto &e : mon::queue_violations) { size_t bar = e.find('|'); add_violation(all, "C08", e.substr(0, bar), e.substr(bar + 1)); add_violation(all, "C06", "queue_" + e.substr(0, bar), e.substr(bar + 1)); }
+    if (wr.status != RUN_OK) {
+        add_violation(all, "C07", wr.status == RUN_DEADLOCK ? "deadlock" : "no_progress", fmt("threaded-writer program did not finish: %s; %s", sim::status_name(wr.status), sim::deadlock_info().c_str()));
+    } else if (wr.open_rc == 0) {
+        // ---- bookkeeping
+        size_t n_drop = 0, n_timeout = 0;
+        std::map<int, int> enq_by_op;
+        for (auto &e : mon::enq) if (e.op >= 0) enq_by_op[e.op]++;
+        for (size_t i = 0; i < P.ops.size(); ++i) {
+            const Op &o = P.ops[i]; const OpRec &r = wr.rec[i];
+            if (!r.done) continue;
+            if (is_msg_kind(o.kind)) {
+                int n = enq_by_op.count((int) i) ? enq_by_op[(int) i] : 0;
+                if (r.rc == 0 && n != 1) add_violation(all, "C06", n == 0 ? "accepted_call_not_enqueued" : "accepted_call_enqueued_twice", fmt("op %zu '%s' returned 0 but was enqueued %d times", i, o.to_text().c_str(), n), (int) i);
+                if (r.rc != 0 && n != 0) add_violation(all, "C06", "failed_call_left_a_message", fmt("op %zu '%s' returned %d but a message was enqueued", i, o.to_text().c_str(), r.rc), (int) i);
+                if (r.rc != 0) { ++n_drop; sim::fault_counts[F_DROP]++; }
+            }
+            if (o.kind == OP_FLUSH && r.rc != 0) ++n_timeout;
+        }
+        out.ctr["calls_rejected_busy"] += n_drop; out.ctr["flush_timeouts"] += n_timeout;
+        // ---- (a) applied history = accepted calls in enqueue order
+        std::vector<const mon::Enq *> E; for (auto &e : mon::enq) if (e.op >= 0 && e.op < (int) P.ops.size() && P.ops[e.op].kind != OP_CLOSE) E.push_back(&e);
+        std::vector<mon::Applied *> Am; for (auto &a : mon::applied) if (is_msg_kind(a.kind) || a.kind == OP_FLUSH) Am.push_back(&a);
+        if (wr.closed && E.size() != Am.size()) add_violation(all, "C06", E.size() > Am.size() ? "accepted_message_lost" : "message_applied_more_than_once", fmt("%zu messages were enqueued, %zu were applied to the writer", E.size(), Am.size()));
+        for (size_t i = 0; i < E.size() && i < Am.size(); ++i) {
+            const Op &o = P.ops[E[i]->op]; mon::Applied &a = *Am[i]; a.op = E[i]->op;
+            bool ok = a.kind == o.kind; std::string why = "kind";
+            if (ok) {
+                std::vector<uint8_t> pl; op_payload(o, pl);
+                switch (o.kind) {
+                    case OP_FSR: { size_t nb = (size_t) (((uint64_t) o.n * dt_bits[o.dtype] + 7) / 8); ok = a.sig == o.sig && a.a == o.a && a.n == o.n && a.payload_len == nb && a.payload_hash == fnv1a(pl.data(), nb); why = "fsr arguments/payload"; break; }
+                    case OP_ANNO: ok = a.sig == o.sig && a.a == o.a && a.at == o.at && a.grp == o.grp && a.st == o.st && a.ybits == o.ybits && a.payload_len == pl.size() && a.payload_hash == fnv1a(pl.data(), pl.size()); why = "annotation arguments/payload"; break;
+                    case OP_UTC: ok = a.sig == o.sig && a.a == o.a && a.b == o.b; why = "utc arguments"; break;
+                    case OP_USER: ok = a.meta == o.meta && a.st == o.st && a.payload_len == pl.size() && a.payload_hash == fnv1a(pl.data(), pl.size()); why = "user data arguments/payload"; break;
+                    case OP_OMIT: ok = a.sig == o.sig && a.n == o.en; why = "omit arguments"; break;
+                    default: break;
+                }
+            }
+            if (!ok) { add_violation(all, "C06", "applied_history_differs", fmt("message #%zu: enqueued by op %d '%s' but the writer thread applied kind=%s sig=%d a=%lld n=%lld (%s differ): reordered, duplicated or mixed", i, E[i]->op, o.to_text().c_str(), op_names[a.kind], a.sig, (long long) a.a, (long long) a.n, why.c_str()), E[i]->op); break; }
+        }
+        // per-producer program order is preserved in the enqueue order
+        { std::map<int, int> last; for (auto *e : E) { int pr = P.ops[e->op].prod; if (last.count(pr) && last[pr] > e->op) { add_violation(all, "C06", "producer_order_violated", fmt("producer %d: op %d enqueued after op %d", pr, e->op, last[pr])); break; } last[pr] = e->op; } }
+        SFile *f = simfs::get(PATH_A);
+        std::vector<uint8_t> twr_bytes = f ? f->bytes : std::vector<uint8_t>();
+        std::vector<WOp> twr_log = f ? f->log : std::vector<WOp>();
+        if (wr.closed && all.empty()) {
+            // ---- (c) logical content = model of the accepted calls (independent decoder)
+            Model M;
+            for (auto &a : mon::applied) if ((a.kind == OP_SRC || a.kind == OP_SIG) && a.rc == 0 && a.op >= 0) M.apply(P.ops[a.op]);
+            for (auto *e : E) { const Op &o = P.ops[e->op]; if (is_msg_kind(o.kind) && wr.rec[e->op].rc == 0 && M.expect(o) == 0) M.apply(o); }
+            specdec::Decoded d; specdec::decode(twr_bytes, d, true);
+            for (auto &e : d.errors) { size_t bar = e.find('|'); add_violation(all, "C07", "close_file_not_complete", "after jls_twr_close: " + e.substr(bar + 1)); add_violation(all, "C06", "format_" + e.substr(0, bar), e.substr(bar + 1)); }
+            if (d.errors.empty()) {
+                std::vector<std::string> ce; specdec::ContentOpts co; specdec::compare_with_model(twr_bytes, d, M, co, ce);
+                for (auto &e : ce) { size_t bar = e.find('|'); add_violation(all, "C06", e.substr(0, bar), "threaded writer file vs accepted calls: " + e.substr(bar + 1)); }
+            }
+            // ---- (b) bytes = synchronous replay of the applied history
+            Plan R = P; R.ops.clear(); R.use_twr = 0; R.reads.clear();
+            for (auto &a : mon::applied) {
+                if (a.kind == OP_CLOSE) continue;
+                if (a.kind == OP_FLUSH) { Op fo; fo.kind = OP_FLUSH; R.ops.push_back(fo); continue; }
+                if (a.op >= 0 && a.op < (int) P.ops.size()) R.ops.push_back(P.ops[a.op]);
+            }
+            { Op c; c.kind = OP_CLOSE; R.ops.push_back(c); }
+            FaultCfg none; sim::set_faults(none); simfs::set_latency(0, 0);
+            WriterResult sr = exec::write_sync(R, "/sim/replay.jls", false);
+            SFile *rf = simfs::get("/sim/replay.jls");
+            if (sr.status != RUN_OK || !rf) add_violation(all, "C06", "sync_replay_failed", "harness: synchronous replay of the applied history did not finish");
+            else if (rf->bytes != twr_bytes) {
+                size_t k = 0; while (k < rf->bytes.size() && k < twr_bytes.size() && rf->bytes[k] == twr_bytes[k]) ++k;
+                add_violation(all, "C06", "file_differs_from_sync_replay", fmt("file written through the threaded writer (%zu bytes) differs from the synchronous replay of the same applied calls (%zu bytes) at offset %zu", twr_bytes.size(), rf->bytes.size(), k));
+            }
+            out.ctr["sync_replays"]++;
+        }
+        // ---- C07 flush: success => everything accepted before the call is applied and fsynced
+        for (size_t i = 0; i < P.ops.size(); ++i) {
+            if (P.ops[i].kind != OP_FLUSH || !wr.rec[i].done || wr.rec[i].rc != 0) continue;
+            const OpRec &fr = wr.rec[i];
+            uint64_t max_applied_end = fr.seq_invoke; bool missing = false; int missing_op = -1;
+            for (size_t q = 0; q < P.ops.size(); ++q) {
+                if (!is_msg_kind(P.ops[q].kind) || !wr.rec[q].done || wr.rec[q].rc != 0 || wr.rec[q].seq_return >= fr.seq_invoke) continue;
+                const mon::Applied *ap = nullptr; for (auto &a : mon::applied) if (a.op == (int) q && a.kind == P.ops[q].kind) { ap = &a; break; }
+                if (!ap || ap->seq_end == 0 || ap->seq_end > fr.seq_return) { missing = true; missing_op = (int) q; break; }
+                max_applied_end = std::max(max_applied_end, ap->seq_end);
+            }
+            if (missing) { add_violation(all, "C07", "flush_returned_before_applied", fmt("flush op %zu returned 0 at seq %llu but op %d '%s', accepted before the flush was invoked, had not been applied", i, (unsigned long long) fr.seq_return, missing_op, P.ops[missing_op].to_text().c_str()), (int) i); continue; }
+            bool synced = false; for (auto &w : twr_log) if (w.kind == W_FSYNC && w.seq > max_applied_end && w.seq < fr.seq_return) synced = true;
+            if (!synced) add_violation(all, "C07", "flush_returned_before_fsync", fmt("flush op %zu returned 0 at seq %llu: no fsync completed after the last earlier message was applied (seq %llu)", i, (unsigned long long) fr.seq_return, (unsigned long long) max_applied_end), (int) i);
+            out.ctr["flushes_checked"]++;
+        }
+        // ---- C07 close
+        if (wr.closed) {
+            if (simfs::open_fd_count() != 0) add_violation(all, "C07", "close_leaves_descriptor", fmt("%d descriptors open after jls_twr_close", simfs::open_fd_count()));
+            bool writer_close_seen = false; for (auto &a : mon::applied) if (a.kind == OP_CLOSE) writer_close_seen = true;
+            if (!writer_close_seen) add_violation(all, "C07", "close_without_writer_close", "jls_twr_close returned but jls_wr_close was never called");
+        }
+        // ---- C07 liveness: documented per-call bounds (virtual time the caller was not itself stalled)
+        if (!clock_jumped) for (size_t i = 0; i < P.ops.size(); ++i) {
+            const Op &o = P.ops[i]; const OpRec &r = wr.rec[i];
+            if (!r.done) continue;
+            int64_t el = r.t_return - r.t_invoke - r.stall_ns;
+            int64_t bound = is_msg_kind(o.kind) ? 5050000000LL : o.kind == OP_FLUSH ? 25100000000LL : -1;
+            if (P.faults.latency == 3) bound = bound < 0 ? -1 : bound + 5000000000LL;   // the caller's own lock/signal can sit behind one pathological I/O of the writer thread
+            if (bound > 0 && el > bound) add_violation(all, "C07", "call_exceeds_documented_timeout", fmt("op %zu '%s' took %.3f s of virtual time (bound %.2f s), rc=%d", i, o.to_text().c_str(), el / 1e9, bound / 1e9, r.rc), (int) i);
+        }
+        bool twr_switch = sim::n_switches() > 2;
+        if (prop == "C06") out.nontrivial = twr_switch && (mon::n_wrap + mon::n_reset + mon::n_alloc_fail > 0);
+        else if (prop == "C07") { bool has_flush = false; for (auto &o : P.ops) if (o.kind == OP_FLUSH) has_flush = true; out.nontrivial = twr_switch && (has_flush || mon::n_alloc_fail > 0); }
+        else out.nontrivial = mon::n_wrap > 0 && mon::n_alloc_fail > 0;
+        out.sample = fmt("%d producer(s), queue %u bytes, %zu ops, %zu enqueued, %zu applied, %llu wraps, %llu full, policy %d", P.producers, P.mrb_size, P.ops.size(), mon::enq.size(), mon::applied.size(), (unsigned long long) mon::n_wrap, (unsigned long long) mon::n_alloc_fail, P.pol.kind);
+    } else add_violation(all, "C06", "twr_open_failed", fmt("jls_twr_open rc=%d", wr.open_rc));
+    for (auto &v : all) if (v.prop == prop && out.viol.size() < 8) out.viol.push_back(v);
+    finish_outcome(out);
+    sim::cleanup();
+    return out;
+}
+
 RunOutcome run_check(const std::string &prop, const Plan &P, int tier) {
     (void) tier;
     if (prop == "C05" || prop == "C14") return check_format(prop, P);
+    if (prop == "C03" || prop == "C19") return check_crash(prop, P, tier);
+    if (prop == "C04") return check_corrupt(prop, P, tier);
+    if (prop == "C06" || prop == "C07" || prop == "C08") return check_twr(prop, P);
     if (prop == "C01" || prop == "C02" || prop == "C09" || prop == "C11" || prop == "C12" || prop == "C13") return check_roundtrip(prop, P);
     RunOutcome out;
     add_violation(out.viol, prop, "no_such_check", "check not implemented");
